@@ -128,7 +128,7 @@ func main() {
 	genLogic(ecs, files)
 	genFacts(ecs, *repo, files, *templates)
 	files["Words"] = genWords(ecs)
-	genBook(ecs, files)
+	genBook(ecs, load(filepath.Join(*repo, "ecs", "stats"), func(n string) bool { return false }), files)
 
 	for name, content := range files {
 		must(os.WriteFile(filepath.Join(*out, name+".lean"), []byte(content), 0o644))
